@@ -626,16 +626,18 @@ with flow_map_items (fuel : nat) (l : octs) (c : nat) (acc : list (bytes * item)
   | O => None
   | S f =>
       (* optional explicit key mark "? " *)
-      let '(l0, c0) :=
+      let '(l0, c0, explicit) :=
         match l with
-        | 63 :: 32 :: r => skip_sp r (c + 2)%nat
-        | _ => (l, c)
+        | 63 :: 32 :: r => let '(l1, c1) := skip_sp r (c + 2)%nat in (l1, c1, true)
+        | _ => (l, c, false)
         end in
       match flow_scalar l0 c0 with
       | Some (k, r, c1) =>
           let '(r1, c2) := skip_sp r c1 in
           match r1 with
           | 58 :: 32 :: r2 =>
+              if (negb explicit && Nat.ltb 1024 (c1 - c0))%bool then None   (* VerifySimpleKey: an implicit key spans at most 1024 bytes *)
+              else
               let '(r3, c3) := skip_sp r2 (c2 + 2)%nat in
               match flow_node f r3 c3 with
               | Some (v, r4, c4) =>
@@ -791,7 +793,8 @@ with block_map (fuel : nat) (l : octs) (c m : nat) (acc : list (bytes * item)) :
         else
           match key_scalar l c with
           | Some (k, r1, c1) =>
-              if is_value_mark r1 then
+              if Nat.ltb 1024 (c1 - c) then None      (* VerifySimpleKey: an implicit key spans at most 1024 bytes *)
+              else if is_value_mark r1 then
                 match skipn 1 r1 with
                 | (32 :: _) as r3 =>
                     let '(r4, c4) := skip_sp r3 (S c1) in
